@@ -39,3 +39,11 @@ claim("C04", "explicit-state breadth-first search over operation sequences on th
   "All mutator sequences up to the depth bound over a collision-rich alphabet (equal multihash/different codec, equal digest/different hash function, identity, over-long CID, batches, lifecycle calls) for 64 configurations x 2 front-ends; all observers are evaluated in every state. Exhaustive within the bound with state de-duplication on model state + implementation fingerprint.",
   "Trusted: the map model (DESIGN A.4). Not compared: identity lookups after close; lifecycle return values other than first success.",
   "DESIGN.md 5/C04")
+claim("C20", "exhaustive enumeration of operation sequences of the depth bound on the real deferred writer; differential oracle against a directly constructed writer; callback model",
+  "Every sequence over {Put, Has, OnPut(always), OnPut(once), Close} up to the depth bound x path/stream x option sets is executed, with laziness, byte equality with a direct storage writer, callback log and closed-state errors checked after every step. Exhaustive within the bound.",
+  "Trusted: storage.NewWritable as byte reference (C01/C05 check it independently).",
+  "DESIGN.md 5/C20")
+claim("C12", "exhaustive enumeration of {Put, Discard+reopen, Finalize+reopen} sequences on the real stores; differential oracle (uninterrupted session); exhaustive single-field mismatch probes on every distinct intermediate image",
+  "Every interleaving of puts and interruptions up to the depth bound x 7 configurations x 2 front-ends ends byte-identical to the uninterrupted session; every distinct intermediate file image is reopened with every single-field mismatch and must be refused untouched. Exhaustive within the bound.",
+  "Trusted: the uninterrupted session as reference. Interruptions are at operation boundaries only (byte-level cuts are C06).",
+  "DESIGN.md 5/C12")
